@@ -258,6 +258,33 @@ fn overflow_texts() -> Vec<(String, String)> {
     v
 }
 
+/// texts in which an exact lowering needs a bound that cannot be derived: (name, source, variables that must be named)
+const MUST_MISS: [(&str, &str, &str); 5] = [
+    ("exact-abs-open-above", "max abs { x }\ns.t.\n    x >= -3\ndefine\n    x as Real(-3, Infinity)\n", "x"),
+    ("exact-abs-open-below", "max abs { x }\ns.t.\n    x <= 3\ndefine\n    x as Real(MinusInfinity, 3)\n", "x"),
+    ("exact-abs-lower-bounded-row-open-below", "min y\ns.t.\n    abs { x - 1 } >= y\n    x <= 2\ndefine\n    x as Real\n    y as Real(0, 9)\n", "x"),
+    ("exact-max-open-above", "max max { x, 1 }\ns.t.\n    x >= -3\ndefine\n    x as Real\n", "x"),
+    ("exact-min-open-below", "min min { x, 1 }\ns.t.\n    x <= 3\ndefine\n    x as Real\n", "x"),
+];
+fn check_must_miss(i: u64, l: &mut Local) {
+    let (name, src, var) = MUST_MISS[i as usize];
+    l.count("must-miss-texts");
+    let case = |what: String, lin: Option<String>| json!({"source": src, "what": what, "linear": lin});
+    let r = crate::core::catch(|| RoocParser::new(src.to_string()).parse_and_transform(vec![], &IndexMap::new()).map_err(|e| format!("transform: {e}")).and_then(|m| Linearizer::linearize(m).map_err(|e| format!("{:?}", e))));
+    match r {
+        Err(p) => l.violation(format!("panic:must-miss:{name}"), p.clone(), case(p, None)),
+        Ok(Ok(lm)) => l.violation(format!("compiled-although-a-needed-bound-is-missing:{name}"), format!("the exact lowering needs a finite bound of {var} that cannot be derived, yet the model compiles (a constant was guessed)"), case("compiled".into(), Some(lm.to_string()))),
+        Ok(Err(e)) => {
+            if e.contains("MissingFiniteBounds") && e.contains(&format!("\"{var}\"")) {
+                l.count("must-miss:refused-naming-the-variable");
+                l.nontrivial(&src.to_string());
+            } else {
+                l.violation(format!("missing-bound-reported-differently:{name}"), format!("expected the missing-bounds error naming {var}, got {}", e.chars().take(200).collect::<String>()), case(e.clone(), None));
+            }
+        }
+    }
+}
+
 fn check_text_src(name: &str, src: &str, l: &mut Local) {
     l.count(&format!("text:{name}"));
     let case_json = |what: String, lin: Option<String>| json!({"source": src, "what": what, "linear": lin});
@@ -423,7 +450,7 @@ pub fn run(mut run: Run) -> ! {
     crate::core::silence_panics();
     let quick = run.quick();
     let depth = if quick { 2 } else { 3 };
-    run.rule = format!("every linear model compiled from the C01 families (A: cores x context chains depth {depth} x relations x constants x declaration forms; B: logic trees x comparison forms; C: bound feeders x consumers; D: blocks over three variables with different ranges in every context) is checked against the structural invariants (sorted duplicate-free variables = domain keys, every source variable present, one coefficient per variable in every row and the objective, finite numbers, unique row names, $-prefixed auxiliaries, no constant above 1e7), every missing-bounds rejection against its contract (non-empty list, exactly the unbounded variables of the offending expression per the hooked bounds analysis), plus 27 adversarial texts (duplicate and colliding row names, user variables named like auxiliaries, unused declarations, vanishing coefficients, infinite constants, infinite bounds under exact lowerings, empty aggregations), 14 texts whose finite literals (1e200, 1e308, 1e-200 written out) overflow only while rows and objective are assembled, plus family U: 9 lowering templates x 9 declared types of a user variable, which is given the name of every auxiliary the twin model (user variable called u_q) generates: the colliding model must be refused or keep as many columns and rows as the twin; distinct = model text");
+    run.rule = format!("every linear model compiled from the C01 families (A: cores x context chains depth {depth} x relations x constants x declaration forms; B: logic trees x comparison forms; C: bound feeders x consumers; D: blocks over three variables with different ranges in every context) is checked against the structural invariants (sorted duplicate-free variables = domain keys, every source variable present, one coefficient per variable in every row and the objective, finite numbers, unique row names, $-prefixed auxiliaries, no constant above 1e7), every missing-bounds rejection against its contract (non-empty list, exactly the unbounded variables of the offending expression per the hooked bounds analysis), plus 5 texts whose exact lowering needs a bound that cannot be derived (half-bounded operands of abs / max / min: must be refused with the missing-bounds error naming the variable), plus 27 adversarial texts (duplicate and colliding row names, user variables named like auxiliaries, unused declarations, vanishing coefficients, infinite constants, infinite bounds under exact lowerings, empty aggregations), 14 texts whose finite literals (1e200, 1e308, 1e-200 written out) overflow only while rows and objective are assembled, plus family U: 9 lowering templates x 9 declared types of a user variable, which is given the name of every auxiliary the twin model (user variable called u_q) generates: the colliding model must be refused or keep as many columns and rows as the twin; distinct = model text");
     run.assume("derived bounds read through the verif_hooks view of the bounds analysis on the normalised constraints, as the linearizer computes them");
     let sa = family_a_size(depth, false);
     run.family("A-core-in-context", sa, move |i, l| check_case(&family_a(i, depth, false), l));
@@ -435,6 +462,7 @@ pub fn run(mut run: Run) -> ! {
     run.family("C-bound-feeders", family_c_size(), |i, l| check_case(&family_c(i), l));
     run.family("D-several-continuous-variables", family_d_size(1), |i, l| check_case(&family_d(i, 1), l));
     run.family("T-adversarial-texts", TEXTS.len() as u64, check_text);
+    run.family("B-texts-that-need-an-underivable-bound", MUST_MISS.len() as u64, check_must_miss);
     {
         let texts = std::sync::Arc::new(overflow_texts());
         let t2 = texts.clone();
